@@ -80,11 +80,20 @@ def run_c06(chk):
             scored = (method == 'lexstat')
         nlex += 1
         link = rng.choice([x for x in cl.LINKS if x != plink])
+        nudge = False
+        if again is not None and plink is not None and rng.random() < 0.4:
+            # the same method and linkage once more into the same column, with a threshold that differs from the earlier one only from
+            # the third decimal on (0.3333.. then 0.33): it is another threshold, distances between the two change sides
+            link, nudge = plink, True
         mats = matrices_of(lex, method)
         vals = sorted(set(v for _, _, m in mats for r in m for v in r))
         t = rng.choice(vals + [0.3, 0.5, 0.45, 0.75]) if method != 'turchin' else rng.choice([0.0, 0.5, 0.9])
         if again is not None:
             t = again
+            if nudge:
+                t2 = float('%.2f' % again)
+                t = t2 if t2 != again else again + rng.choice([0.004, -0.004])
+                chk.hist['LexStat.cluster again: same method, linkage and column, threshold changed in the third decimal'] += 1
         elif rng.random() < 0.12:
             t = rng.choice([0, 0.0])          # only identical words (distance exactly 0) are to be joined
             chk.hist['LexStat.cluster with threshold zero'] += 1
